@@ -77,7 +77,14 @@ func (w *watches) byPath(path string) *watch { return w.wd[w.path[path]] }
 func (w *watches) byWd(wd uint32) *watch     { return w.wd[wd] }
 func (w *watches) len() int                  { return len(w.wd) }
 func (w *watches) add(ww *watch)             { w.wd[ww.wd] = ww; w.path[ww.path] = ww.wd }
-func (w *watches) remove(watch *watch)       { delete(w.path, watch.path); delete(w.wd, watch.wd) }
+func (w *watches) remove(watch *watch) {
+	// The path may belong to another watch by now: a directory of a recursive
+	// watch that was renamed over this one.
+	if w.path[watch.path] == watch.wd {
+		delete(w.path, watch.path)
+	}
+	delete(w.wd, watch.wd)
+}
 
 func (w *watches) removePath(path string) ([]uint32, error) {
 	path, recurse := recursivePath(path)
